@@ -48,6 +48,8 @@ class C01Facade(Harness):
         for spec, wk in (("edges", "int"), ("pairs", "real")):   # (gapped pairs with integer contents: see the known finding C01-gapped-int-dtype)
             yield (f"h1-N2-M2-{spec}-w{wk}-dropna0", dict(N=2, M=2, spec=spec, weights=wk, keep_missed=True, dtype=None, nan=True, dropna=False))
         yield ("h1-N1-M1-fwb-wreal-dropna0", dict(N=1, M=1, spec="fwb", weights="real", keep_missed=True, dtype=None, nan=True, dropna=False, width=1.0))
+        # weights that are an unsigned-integer array (no dtype requested): an integer histogram like for any integer weights
+        yield ("h1-N2-M2-edges-wuint32-k1-dNone", dict(N=2, M=2, spec="edges", weights="int", keep_missed=True, dtype=None, nan=False, wdtype="uint32"))
         for dt, wk in (("uint16", "real"), ("uint32", "int"), ("uint64", "real"), ("int16", "real")):
             yield (f"h1-N2-M2-edges-w{wk}-k1-d{dt}", dict(N=2, M=2, spec="edges", weights=wk, keep_missed=True, dtype=dt, nan=False))
         # multi-dimensional data in non-C memory layouts (transposed / strided / reversed views) with element-wise weights
@@ -62,7 +64,7 @@ class C01Facade(Harness):
             return self._declare_layout(cx, p)
         x = {"v": cx.reals("v", N, nan=p["nan"])}
         f32 = p["dtype"] == "float32"  # binary32 rounding is not modelled: weights whose squares and sums are exact in binary32
-        narrow = {"float32": 2000, "uint32": 2000, "int32": 2000, "uint16": 100, "int16": 100}.get(p["dtype"])   # sums of squares stay inside the type
+        narrow = {"float32": 2000, "uint32": 2000, "int32": 2000, "uint16": 100, "int16": 100}.get(p["dtype"] or p.get("wdtype"))   # sums of squares stay inside the type
         if p["weights"] == "int":
             x["w"] = cx.ints("w", N, lo=0, hi=narrow)
         elif p["weights"] == "real" and f32:
@@ -147,7 +149,7 @@ class C01Facade(Harness):
             pairs = [[l, r] for l, r in zip(x["l"], x["r"])]
             bins = np.asarray(pairs) if p["spec"] == "pairs" else E.mod("physt.binnings").StaticBinning(pairs)
         if "w" in x:
-            kw["weights"] = x["w"]
+            kw["weights"] = x["w"] if not p.get("wdtype") else np.asarray(x["w"], dtype=p["wdtype"])
         if p["dtype"]:
             kw["dtype"] = p["dtype"]
         if p.get("dropna") is False:
